@@ -21,9 +21,9 @@ def run(ctx):
     scratch = vlib.scratch_dir("C01")
     env = vlib.scrub_env(scratch=scratch)
     if tier == "quick":
-        levels, deadline, nsh = "L1,L2,L3,L4,L5,L6", ctx["deadline"] or 420, 96
+        levels, deadline, nsh = "L1,L2,L3,L4,L5,L6,LB", ctx["deadline"] or 420, 96
     else:
-        levels, deadline, nsh = "L1,L2,L3,L4,L5,L6", ctx["deadline"] or 2400, 128
+        levels, deadline, nsh = "L1,L2,L3,L4,L5,L6,LB", ctx["deadline"] or 2400, 128
     args = [["--levels", levels, "--tier", tier, "--targets", "avx,sse,mmx", "--classes", "int",
              "--corpus", corpus_arg(), "--shard", i, "--nshards", nsh, "--deadline", int(deadline)] for i in range(nsh)]
     res = vlib.run_shards(exe, args, env, timeout=deadline * 1.5 + 300, label="xprog")
